@@ -279,7 +279,16 @@ DoRead(off, n) ==
   /\ UNCHANGED <<log, disc, nb, rew>>
   /\ Log("read", off, n, 0)
 
-Positions == IF SimMode THEN {disc, (disc + Len(log)) \div 2, (F * (Len(log) \div F)), Max(disc, Len(log) - 1), Len(log)} ELSE 0..Len(log)
+\* (simulation: besides the ends and the middle, the chunk start and the flushed offset of the current file and the byte
+\* after it, so that rewinds land on both sides of fileOffset)
+Positions == IF SimMode THEN {disc, (disc + Len(log)) \div 2, (F * (Len(log) \div F)), Max(disc, Len(log) - 1), Len(log),
+                              impl.cur * F + impl.a.fo, impl.cur * F + impl.a.fo + 1}
+             ELSE 0..Len(log)
+\* SetOffset(p) takes the in-memory branch while flushed but unsynced bytes are still held in the write buffer (retryable
+\* sync): the new wbufUnwrittenOffset has to account for the flushed window.  Recorded in the history (field b) so that
+\* the replay can count how often the real code was driven through this branch.
+IntoTailWithFlushedHeld(S, p) ==
+  p \div F = S.cur /\ S.a.fl > 0 /\ p % F >= S.a.fo /\ p < Size(S)
 DoSetOffset(p) ==
   /\ Enabled /\ ~impl.ro /\ p >= disc /\ p <= Len(log) /\ (SimMode => p < Len(log))
   /\ impl' = Norm(MSetOffset(impl, p))
@@ -287,7 +296,7 @@ DoSetOffset(p) ==
   /\ last' = [op |-> "setoffset", ok |-> TRUE]
   /\ rew' = (rew \/ p < Len(log))
   /\ UNCHANGED <<disc, nb>>
-  /\ Log("setoffset", p, 0, 0)
+  /\ Log("setoffset", p, IF IntoTailWithFlushedHeld(impl, p) THEN 1 ELSE 0, 0)
 
 DoFlush ==
   /\ Enabled /\ ~impl.ro
